@@ -460,6 +460,8 @@ fn gen_op(rng: &mut Rng, sut: &Sut, last_explicit: &mut u64) -> Op {
             0 => vec![],
             1 => vec![b'q'; 4067],
             2 => vec![b'q'; 102401],
+            // keys whose length does not fit 16 bits (memory-only stores take keys up to 100 KiB)
+            3 if sut.cfg.mem => vec![b'w'; *rng.pick(&[65535usize, 65536, 70000, 102400])],
             _ => rng.pick(&sut.keys).clone(),
         }
     };
@@ -527,6 +529,10 @@ fn gen_case(rng: &mut Rng, s: &mut Sink, dir: &str, recsize: usize, cfg: Cfg, le
             k = vec![b'k'; if cfg.fmt == 1 && !cfg.mem { 4074 } else { 4066 }];
         }
         keys.push(k);
+    }
+    // one memory-only case in five works on a key longer than 16 bits can count, too
+    if cfg.mem && rng.chance(1, 5) {
+        keys.push(vec![b'w'; *rng.pick(&[65536usize, 70000, 102400])]);
     }
     let mut sut = Sut { store: None, cfg, path: format!("{}/kv{}.feox", dir, s.cases), now: 1_700_000_000_000_000_000 + rng.below(1_000_000_000), keys };
     if !start_case(&mut sut, s, recsize) {
